@@ -1278,6 +1278,7 @@ package machine
 //@ func (sm *Subscriptions) dispose()
 //@   props C13 C06
 //@   abstracts state-context cancel functions are opaque callbacks
+//@   assigns chans.closed
 //@   requires nn: (forall s string, i int :: has(sm.when, s) && 0 <= i && i < len(sm.when[s]) ==> sm.when[s][i] != nil)
 //@            && (forall s string, i int :: has(sm.whenTime, s) && 0 <= i && i < len(sm.whenTime[s]) ==> sm.whenTime[s][i] != nil)
 //@            && (forall s string, i int :: has(sm.whenArgs, s) && 0 <= i && i < len(sm.whenArgs[s]) ==> sm.whenArgs[s][i] != nil)
